@@ -1292,3 +1292,5 @@ def _run(world: World, plan):
     sig = [sorted(classes.values()), sorted((tuple(e['dir']), e.get('mode')) for e in initial), sig_steps,
            sorted(set(sig_obs)), sorted(set(settle_log)), plan.get('slots')]
     return common.finish(world, nontrivial, sig)
+
+INFO['rule'] += ' Round-5 additions: a client kept busy by status announcements every 0.5..4 s (busy), combined with a block / friend change that is taken back between two polls of the settings.'
